@@ -8,7 +8,8 @@ import os
 
 from .geom import Geo, dec, enc, well_id
 
-LAB_NAMES = ["src", "dst", "plate1", "T", "reservoir", "A", "MTP-96", "x y", "stocks", "dil", "Waste_2", "b"]
+LAB_NAMES = ["src", "dst", "plate1", "T", "reservoir", "A", "MTP-96", "x y", "stocks", "dil", "Waste_2", "b",
+             "µ-plate", "a.b", "96er", "N" * 32, "first"]
 COMPONENTS = ["water", "glucose", "NaCl", "buffer", "x", "dye"]
 
 
@@ -79,7 +80,9 @@ def gen_labware(rng, kind, name, regime, size_class, idx, opts):
                 return 0.0
             return snap(rng.uniform(0, 1.0) * vmax, regime)
         if pattern == "low":
-            # around / below min_volume
+            # around / below min_volume, and exactly on it
+            if rng.random() < 0.3:
+                return vmin
             return snap(rng.uniform(0, 1.5) * max(vmin, 0.02 * vmax), regime)
         return None
 
@@ -136,6 +139,16 @@ def gen_world(rng, opts=None):
         if i == 1 and opts.get("need_plate"):
             kind = "plate"
         labs.append(gen_labware(rng, kind, names[i], regime, size_class, i, opts))
+    if n >= 2 and rng.random() < 0.15:
+        # replicate labware: built from the very same initial-volumes array object as another one (a user who
+        # fills several plates from one layout array) - the library must not let them share state
+        j = rng.randrange(n - 1)
+        k = rng.randrange(j + 1, n)
+        import copy as _copy
+        rep = _copy.deepcopy(labs[j])
+        rep["name"], rep["grid"], rep["site"] = labs[k]["name"], labs[k]["grid"], labs[k]["site"]
+        rep["replica_of"] = j
+        labs[k] = rep
     r = rng.random()
     if r < 0.3:
         mv = 950
@@ -155,20 +168,28 @@ def gen_world(rng, opts=None):
 
 
 # ------------------------------------------------------------------ building the real objects
-def build_labware(rt, spec):
+def build_labware(rt, spec, shared=None, index=None):
+    """shared: dict index -> the ndarray handed to an earlier labware (replicas get the same object)."""
     import numpy as np
 
+    shared = shared if shared is not None else {}
+    if "replica_of" in spec and spec["replica_of"] in shared:
+        arr = shared[spec["replica_of"]]
+    else:
+        arr = np.array(dec(spec["initial"]), dtype=float)
+    if index is not None:
+        shared[index] = arr
     if spec["kind"] == "plate":
         return rt.Labware(
             spec["name"], spec["rows"], spec["cols"],
             min_volume=dec(spec["min"]), max_volume=dec(spec["max"]),
-            initial_volumes=np.array(dec(spec["initial"]), dtype=float),
+            initial_volumes=arr,
             component_names=spec.get("names"),
         )
     return rt.Trough(
         spec["name"], spec["vrows"], spec["cols"],
         min_volume=dec(spec["min"]), max_volume=dec(spec["max"]),
-        initial_volumes=[float(v) for v in dec(spec["initial"])],
+        initial_volumes=arr if "replica_of" in spec or spec.get("initial_as_array") else [float(v) for v in dec(spec["initial"])],
         column_names=spec.get("names"),
     )
 
